@@ -20,11 +20,20 @@
        (`valid` excludes exactly this: framing_ok ties the framing headers to the writer mode.)
      C02_keepalive_request_side : for every request build produces without a caller-supplied Connection header,
        the parser's should_close equals connector.force_close (by version and the Connection header _send adds).
-   RESPONSE DIRECTION (server -> client): a strict response-parser model does not exist; it is covered by
-     the end-to-end harness (harness/c02.py) only.  C02_keepalive_agree is therefore not stated here; the
-     known HTTP/1.0 keep-alive finding is reported by the harness. *)
+   RESPONSE DIRECTION (server -> client): the BYTES are covered by the end-to-end harness (harness/c02.py)
+     only - a strict response-parser model does not exist.  The keep-alive DECISIONS are modelled
+     (Model/WireResp.v: the framing / Connection choices of StreamResponse._prepare_headers, what web_protocol
+     then does, what HttpResponseParser concludes) and compared with the real endpoints on every run:
+     C02_keepalive_agree_refuted : the full statement is FALSE of the faithful model - HTTP/1.0 keep-alive
+       request, StreamResponse with a body and no length: close-delimited body on a connection the server
+       keeps open (`keep_alive = False` clears a local, self._keep_alive was stored before).  Replayed on the
+       implementation: known finding C02-h10-keepalive-close-delimited.
+     C02_keepalive_agree_partial : outside that family the client never reuses a connection the server
+       closes and never waits for the end of a connection the server keeps open. *)
 From AV Require Import Lib.Base Lib.BytesX Generated.HttpGen Generated.WireGen Model.Writer Model.Http Model.Wire
-  Proofs.HttpSeg Proofs.HttpSegEx Proofs.WireLines Proofs.WireRoundtrip Proofs.WireKeepalive Proofs.WireExamples.
+  Model.WireResp
+  Proofs.HttpSeg Proofs.HttpSegEx Proofs.WireLines Proofs.WireRoundtrip Proofs.WireKeepalive Proofs.WireExamples
+  Proofs.WireResp.
 Open Scope N_scope.
 
 (* ------------------------------------------------------------------ 1. the round trip *)
@@ -126,3 +135,29 @@ Example C02_keepalive_examples :
   (let r := built ex_bytes in valid lim0 r = true /\ md_has n_connection (i_headers ex_bytes) = false /\ close_of r = true).
 Proof. exact ex_keepalive. Qed.
 Print Assumptions C02_keepalive_examples.
+
+(* ------------------------------------------------------------------ 4. keep-alive, both ends (decisions) *)
+(* Full statement (for every response StreamResponse prepares the two ends' decisions are safe together):
+   refuted below.  With the excluded family named explicitly: *)
+Theorem C02_keepalive_agree_partial : forall c r h keeps,
+  server_prepare c r = SHead h keeps -> h10_close_delimited_kept c r = false ->
+  (client_close h = false -> keeps = true) /\ (keeps && client_waits_eof (q_head c) h = false).
+Proof. exact keepalive_agree_partial. Qed.
+Print Assumptions C02_keepalive_agree_partial.
+
+Theorem C02_keepalive_agree_refuted :
+  exists c r h,
+    server_prepare c r = SHead h true /\ client_close h = true /\ client_waits_eof (q_head c) h = true /\
+    h10_close_delimited_kept c r = true.
+Proof. exact keepalive_agree_refuted. Qed.
+Print Assumptions C02_keepalive_agree_refuted.
+
+(* hypotheses satisfiable: HTTP/1.1 stream without length (chunked, kept open, reusable); HTTP/1.0 with a length *)
+Example C02_keepalive_agree_examples :
+  (exists h, server_prepare (mkCtx true true false) (mkResp 200 None false false) = SHead h true /\
+             client_close h = false /\ client_waits_eof false h = false /\
+             h10_close_delimited_kept (mkCtx true true false) (mkResp 200 None false false) = false) /\
+  (exists h, server_prepare (mkCtx false true false) (mkResp 200 (Some 5) false false) = SHead h true /\
+             client_close h = false /\ h_conn h = CKeepAlive).
+Proof. exact agree_example. Qed.
+Print Assumptions C02_keepalive_agree_examples.
